@@ -251,7 +251,9 @@ def run_argsid(case, V, hooks, distinct):
             ks = sorted(m1)[:2]
             a, b = ks
             va, vb = m2.pop(a), m2.pop(b)
-            m2[a] = va + '";"' + b + '"="' + vb
+            # fold the second pair into the first value, for every hypothesis about which parts are quoted
+            q = rng.choice(['";"%s"="', ';"%s"=', ';%s=', '";%s="', '\\";\\"%s\\"=\\"'])
+            m2[a] = va + (q % b) + vb
         hooks["argsid_pairs"] += 1
         id1, id2 = compute_args_id(m1), compute_args_id(m2)
         distinct.append(["argsid", kind, len(m1)])
@@ -381,10 +383,56 @@ def run_e2e(case, V, hooks, distinct):
                 V.append({"sig": f"e2e:result-differs:{dom}", "what": f"client read {repr(got)[:100]} for {repr(original)[:100]}", "witness": wit})
 
 
+def run_e2e_exc(case, V, hooks, distinct):
+    """A body that raises: the client must get an exception of the same type and args, inline or externalised."""
+    from vtasks import basic
+    rng = random.Random(case["seed"] + 1)
+    dom, backend = case["domain"], case["backend"]
+    with TmpDir() as td:
+        thr = rng.choice([64, 1024])
+        app = make_app(backend, td.db(), serializer_cls=SERIALIZERS[dom], min_size_to_cache=thr, app_id=f"c15x{case['seed']}", cached_status_time=0.0)
+        task = app.task(basic.raise_exc)
+        ctx = runner_ctx("W", "worker-1")
+        for i in range(max(6, case["n"] // 3)):
+            exc = gen_exception(rng, dom, 0, composed=False)
+            if rng.random() < 0.5:  # make the serialized exception straddle / exceed the externalisation threshold
+                exc = type(exc)("m" * (thr + rng.randrange(-30, 300)), *exc.args[:1])
+            basic.EXC_BOX[0] = exc
+            hooks["e2e_calls"] += 1
+            try:
+                inv = task(i)
+                set_thread_ctx(app, ctx)
+                try:
+                    for w in list(app.orchestrator.get_invocations_to_run(1, ctx)):
+                        try:
+                            w.run(ctx)
+                        except Exception:
+                            pass  # run() re-raises the body's exception after recording it
+                finally:
+                    clear_thread_ctx(app)
+                try:
+                    got = inv.result
+                    V.append({"sig": "e2e:failed-invocation-returned-value", "what": f"result returned {got!r:.80} instead of raising", "witness": {"exc": repr(exc)[:200]}})
+                    continue
+                except Exception as e:
+                    got = e
+            except Exception as e:
+                V.append({"sig": f"e2e:raised:{dom}", "what": f"harness step raised {type(e).__name__}: {e}"[:300], "witness": {"exc": repr(exc)[:200]}})
+                continue
+            size = len(app.state_backend.serialize_exception(exc))
+            distinct.append(["e2e-exc", dom, backend, "external" if size >= thr else "inline", type(exc).__name__])
+            if not same(exc, got):
+                V.append({"sig": f"e2e:exception-differs:{'external' if size >= thr else 'inline'}",
+                          "what": f"body raised {repr(exc)[:80]}, client got {type(got).__name__}: {repr(got)[:80]}",
+                          "witness": {"raised": repr(exc)[:300], "got": repr(got)[:300], "backend": backend, "serializer": dom, "threshold": thr}})
+
+
 def run_case(case):
     hooks = Counter()
     V, distinct = [], []
     {"ser": run_ser, "store": run_store, "argsid": run_argsid, "ident": run_ident, "e2e": run_e2e}[case["kind"]](case, V, hooks, distinct)
+    if case["kind"] == "e2e":
+        run_e2e_exc(case, V, hooks, distinct)
     seen, out = Counter(), []
     for v in V:
         seen[v["sig"]] += 1
